@@ -433,7 +433,7 @@ func (s *Service) accountPathsToVerificationRegexes(paths []string) map[string][
 		parts[0] = utils.TrimEndAnchor(parts[0])
 		parts[1] = strings.TrimPrefix(parts[1], "^")
 		parts[1] = utils.TrimEndAnchor(parts[1])
-		specifier := fmt.Sprintf("^%s/%s$", parts[0], parts[1])
+		specifier := fmt.Sprintf("^%s/%s$", utils.GroupAlternatives(parts[0]), utils.GroupAlternatives(parts[1]))
 		regex, err := regexp.Compile(specifier)
 		if err != nil {
 			log.Warn().Str("specifier", specifier).Err(err).Msg("Invalid path regex")
